@@ -442,6 +442,35 @@ func (c *Ctx) rulesC07(a *coreAnchors) {
 		np++
 	}
 	c.check(np == 1, "C07.trig", "emitEvents prepends the auto mutation once", f.Pos(), fmt.Sprintf("%d PrependMut sites", np))
+	// PrependMut never refuses except while disposing (emitEvents ignores its
+	// result: a refused auto mutation would be silently lost)
+	c.rule("C07.enq", "PrependMut enqueues unconditionally: every return that is not preceded by the queue write is dominated by disposing == true")
+	if pmf := a.prependMut; pmf != nil {
+		var w ssa.Instruction
+		for _, fw := range writesOfFieldIn(pmf, a.fQueue) {
+			w = fw.Instr
+			break
+		}
+		if w == nil {
+			c.undecided("C07.enq: PrependMut does not write Machine.queue")
+		} else {
+			k := 0
+			for _, r := range returnsOf(pmf) {
+				if canReach(w, r) {
+					continue
+				}
+				k++
+				okd := false
+				for _, g := range guardsOf(r.Block()) {
+					if gAtomicLoadTruth("", a.fDisposing, true).Match(g) {
+						okd = true
+					}
+				}
+				c.check(okd, "C07.enq", "PrependMut early return"+nth(k-1)+" only while disposing", r.Pos(), fmt.Sprintf("a prepended (auto / exception / check) mutation may only be refused on a disposing machine; guards=%v", guardStrings(guardsOf(r.Block()))))
+			}
+			c.check(true, "C07.enq", "PrependMut writes the queue", w.Pos(), "queue write found")
+		}
+	}
 	c.floor("C07.trig", 12)
 
 	// C07.lit
